@@ -44,6 +44,13 @@ def reply_mix(ctx, cfg, rounds=1, on_reply=None, tcp=True):
                 tgt = rng.choice(others) if others else gen.rnd_ip6(rng)
                 emit("ns", gen.ns_frame(e, tgt, opts=b"\x01\x01" + e.cmac))
             emit("echo", e.echo(rng.getrandbits(16), rng.getrandbits(16), bytes(rng.getrandbits(8) for _x in range(rng.choice([0, 1, 2, 3, 8, 56, 57, 1000, 1471, 1472])))))
+            # the same answerable content behind a VLAN tag / MPLS label / PPPoE header: unsupported outer EtherType
+            base = rng.choice([e.echo(rng.getrandbits(16), 1, b"tagged"), e.tcp(gen.rnd_port(rng), gen.rnd_port(rng), rng.getrandbits(32), 0, SYN),
+                               gen.arp_request(e) if not v6 else gen.ns_frame(e, e.sip), e.udp(gen.rnd_port(rng), gen.rnd_port(rng), stun.msg(1, stun.gen_tid(rng, True)))])
+            for f in gen.encapsulated(rng, base, types=[0x8100, rng.choice(gen.ENCAP_TYPES)]):
+                emit("encap", f)
+            for f in rng.sample(gen.icmp_noise(rng, cfg), 4):
+                emit("icmpnoise", f[1])
             for fl in (SYN, SYN | ECE, SYN | CWR, SYN | PSH, SYN | URG, SYN | PSH | URG | ECE):
                 emit("syn", e.tcp(gen.rnd_port(rng), gen.rnd_port(rng), rng.choice([0, 1, 0xFFFFFFFF, rng.getrandbits(32)]), rng.getrandbits(32), fl))
             emit("finack", e.tcp(gen.rnd_port(rng), gen.rnd_port(rng), rng.choice([0xFFFFFFFF, rng.getrandbits(32)]), rng.getrandbits(32), FIN | ACK))
